@@ -28,7 +28,7 @@ ASSUMPTIONS = [
     "number spellings Python's int() tolerates but the Specification does not discuss (+5, 1_0, non-ASCII digits) are not generated",
     "a designation is only asserted to work when the documentation of read_files describes it (see DESIGN.md, C15)",
 ]
-BUDGET = {"quick": 400, "thorough": 8000}
+BUDGET = {"quick": 1200, "thorough": 24000}
 
 NAMES = ["ns", "vendor", "zubax", "Alpha", "a_1"]
 SUBS = ["sub", "deep", "Node", "x1", "telemetry"]
